@@ -334,3 +334,62 @@ func (c *Conv) to(f *schema.File, t *schema.Type, rv reflect.Value) (*schema.Val
 	}
 	return nil, shape("unknown kind")
 }
+
+// Scramble overwrites, in place, everything reachable from v that could be shared:
+// slice elements, map entries, bytes, pointed-to values.
+func Scramble(v reflect.Value) { scramble(v, 0) }
+
+func scramble(v reflect.Value, depth int) {
+	if depth > 6 || !v.IsValid() {
+		return
+	}
+	switch v.Kind() {
+	case reflect.Ptr:
+		if !v.IsNil() {
+			scramble(v.Elem(), depth+1)
+		}
+	case reflect.Struct:
+		for i := 0; i < v.NumField(); i++ {
+			if v.Field(i).CanSet() {
+				scramble(v.Field(i), depth+1)
+			}
+		}
+	case reflect.Slice:
+		for i := 0; i < v.Len(); i++ {
+			el := v.Index(i)
+			scramble(el, depth+1)
+			switch el.Kind() {
+			case reflect.Uint8:
+				el.SetUint(uint64(el.Uint()) ^ 0x5a)
+			case reflect.Int8, reflect.Int16, reflect.Int32, reflect.Int64:
+				el.SetInt(el.Int() ^ 0x2a)
+			case reflect.String:
+				el.SetString(el.String() + "~")
+			case reflect.Float64:
+				el.SetFloat(el.Float() + 1)
+			case reflect.Bool:
+				el.SetBool(!el.Bool())
+			}
+		}
+	case reflect.Map:
+		if v.IsNil() {
+			return
+		}
+		for _, k := range v.MapKeys() {
+			v.SetMapIndex(k, reflect.Value{}) // delete
+		}
+		if v.Type().Key().Kind() == reflect.String {
+			v.SetMapIndex(reflect.ValueOf("scrambled").Convert(v.Type().Key()), reflect.Zero(v.Type().Elem()))
+		} else {
+			v.SetMapIndex(reflect.Zero(v.Type().Key()), reflect.Zero(v.Type().Elem()))
+		}
+	case reflect.Int8, reflect.Int16, reflect.Int32, reflect.Int64:
+		if v.CanSet() {
+			v.SetInt(v.Int() ^ 0x15)
+		}
+	case reflect.String:
+		if v.CanSet() {
+			v.SetString(v.String() + "~")
+		}
+	}
+}
